@@ -48,6 +48,7 @@ type Contract struct {
 	Loops     map[int][]*Clause // loop ordinal -> invariants
 	LoopEdges map[int][]*Clause // loop ordinal -> back-edge clauses
 	SafetyOnly map[string]bool  // property -> only safety-kind obligations of this function belong to its check
+	Reacquire []*ReacquireRule  // lock-protected state forgotten when the lock is taken again (locks.go)
 	CallAsserts []*CallAssert
 	NoCanary  bool
 	Sweep     bool // safety-only sweep requested
@@ -153,7 +154,7 @@ var keywords = map[string]bool{
 	"lemma": true, "var": true, "hyp": true, "concl": true, "callassert": true, "nocanary": true,
 	"sweep": true, "note": true, "rule": true, "abstract": true, "free": true, "end": true, "thread": true,
 	"allocbound": true, "results": true, "atreturn": true, "guarded": true, "allocinit": true,
-	"writers": true, "functype": true, "partial": true, "also": true, "table": true,
+	"writers": true, "functype": true, "partial": true, "also": true, "table": true, "reacquire": true,
 }
 
 func (sp *Spec) parseFile(path string) error {
@@ -241,6 +242,28 @@ func (sp *Spec) parseFile(path string) error {
 				return err
 			}
 			sp.Writers = append(sp.Writers, w)
+		case "reacquire":
+			// reacquire <lock> : <designators> ; <invariant>
+			if cur == nil {
+				return fmt.Errorf("%s:%d: reacquire outside func", path, rc.line)
+			}
+			i := strings.Index(rc.text, ":")
+			j := strings.Index(rc.text, ";")
+			if i < 0 || j < i {
+				return fmt.Errorf("%s:%d: expected 'reacquire <lock> : <designators> ; <invariant>'", path, rc.line)
+			}
+			rule := &ReacquireRule{LockSrc: strings.TrimSpace(rc.text[:i]), File: path, Line: rc.line}
+			for _, d := range splitTop(rc.text[i+1:j], ',') {
+				if d = strings.TrimSpace(d); d != "" {
+					rule.Mods = append(rule.Mods, d)
+				}
+			}
+			inv, err := mk("invariant", rawClause{"invariant", strings.TrimSpace(rc.text[j+1:]), rc.line})
+			if err != nil {
+				return err
+			}
+			rule.Inv = inv
+			cur.Reacquire = append(cur.Reacquire, rule)
 		case "table":
 			t, err := parseTable(rc.text, path, rc.line)
 			if err != nil {
